@@ -21,7 +21,7 @@ ASSUMPTIONS = [
     "single-threaded: the bytes read right after an answer are the bytes the answer was about",
 ]
 MONITORS = "every (meta, hash) obtained through the state cache or carried over by update() compared with hashlib at the same instant"
-REQUIRED_COUNTERS = ["checkouts_with_agreeing_prompt_asked", "re_adds_into_a_verifying_store", "legacy_store_checkouts", "failed_adds_over_an_existing_path", "failed_create_index_checkouts_with_meta_update", "batched_lookups_of_legacy_rows", "alias_path_queries", "index_update_with_swap_during_md5", "index_md5_on_reused_index", "memfs_batched_queries", "failed_link_checkouts", "failed_create_index_checkouts", "large_file_cases", "index_update_with_reloaded_old_index", "racing_writer_queries", "symlinked_files", "answers_checked", "state_hits_checked", "mutations", "get_vs_get_many_compared", "staging_listings_checked", "index_md5_checked",
+REQUIRED_COUNTERS = ["index_md5_on_an_already_hashed_index", "incremental_checkouts", "checkouts_with_agreeing_prompt_asked", "re_adds_into_a_verifying_store", "legacy_store_checkouts", "failed_adds_over_an_existing_path", "failed_create_index_checkouts_with_meta_update", "batched_lookups_of_legacy_rows", "alias_path_queries", "index_update_with_swap_during_md5", "index_md5_on_reused_index", "memfs_batched_queries", "failed_link_checkouts", "failed_create_index_checkouts", "large_file_cases", "index_update_with_reloaded_old_index", "racing_writer_queries", "symlinked_files", "answers_checked", "state_hits_checked", "mutations", "get_vs_get_many_compared", "staging_listings_checked", "index_md5_checked",
                      "index_update_carried_checked", "injected_rows", "memfs_queries", "batch_boundary_cases", "mutations_between_queries", "ext4_cases"]
 
 ALGOS = ["md5", "sha256", "md5-dos2unix", "blake3"]
@@ -276,7 +276,7 @@ def run_shard(ctx):
                         else:
                             cur[p] = new
                     continue
-                q = rng.choice(["hash_file", "hash_file", "get", "get_many", "_get_hashes", "build", "index_md5", "index_update", "inject", "memfs", "racing-writer", "checkout-failed-link", "index-checkout-failed-create", "alias-through-dir-symlink", "add-failed-over-existing-path", "legacy-store-checkout", "re-add-into-verifying-store", "checkout-with-agreeing-prompt"])
+                q = rng.choice(["hash_file", "hash_file", "get", "get_many", "_get_hashes", "build", "index_md5", "index_update", "inject", "memfs", "racing-writer", "checkout-failed-link", "index-checkout-failed-create", "alias-through-dir-symlink", "add-failed-over-existing-path", "legacy-store-checkout", "re-add-into-verifying-store", "checkout-with-agreeing-prompt", "index-md5-twice", "incremental-checkout"])
                 if batch and q in ("build", "index_md5", "index_update"):
                     q = "get_many"
                 hist.append(["query", q, ""])
@@ -669,6 +669,54 @@ def run_shard(ctx):
                         if os.path.isfile(pp):
                             _m1, h1 = hash_file(pp, fs, "md5", state=state)
                             verify(pp, "md5", h1.value, f"hash_file/after-checkout-with-agreeing-prompt({plk_})")
+                elif q == "index-md5-twice" and paths:
+                    # an index that already carries hashes is handed to md5() again after files were rewritten: what comes out answers
+                    # for the bytes that are there now
+                    res.count("index_md5_on_an_already_hashed_index")
+                    once_ = imd5(ibuild(wdir, fs), state=state)
+                    for p in rng.sample(paths, rng.randrange(1, min(4, len(paths)) + 1)):
+                        if os.path.islink(p):
+                            continue
+                        k = rng.choice(["grow", "same-size", "rename-same-size", "rename-other"])
+                        cur[p] = mutate(rng, p, cur[p], k)
+                        mcount[p] += 1
+                        res.count("mutations")
+                        hist.append(["mutate", k, os.path.basename(p)])
+                    twice_ = imd5(once_, state=state if rng.random() < 0.7 else None)
+                    note_query(paths)
+                    for k_, e_ in twice_.iteritems():
+                        pp_ = os.path.join(wdir, *k_)
+                        if e_.hash_info and e_.hash_info.value and os.path.isfile(pp_):
+                            res.count("index_md5_checked")
+                            verify(pp_, e_.hash_info.name, e_.hash_info.value, "index.md5/of-an-already-hashed-index")
+                elif q == "incremental-checkout":
+                    # checkout told what the previous checkout produced (old=): a file that is the same in both trees has been edited
+                    # since, another one really differs; nothing may be recorded for the edited file under the trees' hash
+                    from dvc_data.hashfile.checkout import CheckoutError, checkout as _checkout
+                    from dvc_data.hashfile.transfer import transfer as _transfer
+
+                    res.count("incremental_checkouts")
+                    idir = os.path.join(d, f"inc-{len(hist)}")
+                    same_, v1_, v2_ = gen.small_content(rng) + b"same", gen.small_content(rng) + b"v1", gen.small_content(rng) + b"v2"
+                    trees_ = []
+                    for ver_ in (v1_, v2_):
+                        sd_ = os.path.join(d, f"inc-src-{len(hist)}-{len(trees_)}")
+                        gen.write_tree(sd_, {("same",): same_, ("sub", "changes"): ver_})
+                        stg, _m, tobj_ = build(odb, sd_, fs, "md5")
+                        _transfer(stg, odb, {tobj_.hash_info}, shallow=False)
+                        trees_.append(tobj_)
+                    _checkout(idir, fs, trees_[0], odb, force=True, state=state)
+                    with open(os.path.join(idir, "same"), "wb") as f:
+                        f.write(gen.small_content(rng) + b"edited since")
+                    try:
+                        _checkout(idir, fs, trees_[1], odb, force=True, state=state, old=trees_[0])
+                    except CheckoutError:
+                        pass
+                    for rel in (("same",), ("sub", "changes")):
+                        pp = os.path.join(idir, *rel)
+                        if os.path.isfile(pp):
+                            _m1, h1 = hash_file(pp, fs, "md5", state=state)
+                            verify(pp, "md5", h1.value, "hash_file/after-incremental-checkout")
                 elif q == "add-failed-over-existing-path":
                     # adding an object fails (its source is gone; the caller's error hook is told) while other bytes already sit at the
                     # object's path in a store that does not check what it holds: no row may vouch for those bytes
